@@ -98,7 +98,17 @@ Alphabet == <<
     [s |-> "u128", e |-> 0, core |-> FALSE],
     [s |-> "char8", e |-> 0, core |-> FALSE],
     [s |-> "return", e |-> 0, core |-> FALSE],
-    [s |-> "0", e |-> 0, core |-> FALSE] >>
+    [s |-> "0", e |-> 0, core |-> FALSE],
+    \* every builtin the lexer knows (common.rs Builtin) and a name with `!` that is none
+    [s |-> "eprint!", e |-> 0, core |-> FALSE],
+    [s |-> "format!", e |-> 0, core |-> FALSE],
+    [s |-> "dbg!", e |-> 0, core |-> FALSE],
+    [s |-> "panic!", e |-> 0, core |-> FALSE],
+    [s |-> "abort!", e |-> 0, core |-> FALSE],
+    [s |-> "file!", e |-> 0, core |-> FALSE],
+    [s |-> "line!", e |-> 0, core |-> FALSE],
+    [s |-> "include_bytes!", e |-> 0, core |-> FALSE],
+    [s |-> "nosuch!", e |-> 0, core |-> FALSE] >>
 
 Sym == { i \in 1..Len(Alphabet) : Core => Alphabet[i].core }
 
